@@ -20,7 +20,11 @@ const CT_FORM: [&[u8]; 8] = [
     b"application/x-www-form-urlencoded;",
     b"application/x-www-form-urlencoded; charset=unicode-1-1-utf-8",
 ];
-const CT_OTHER: [&[u8]; 6] = [
+const CT_OTHER: [&[u8]; 10] = [
+    b"xapplication/x-www-form-urlencoded",
+    b"application/x-www-form-urlencoded/x",
+    b"application/x-www-form-urlencoded,text/plain",
+    b"application/x-www-form-urlencoded+json",
     b"application/x-www-form-urlencoded-x",
     b"text/plain",
     b"multipart/form-data; boundary=abc",
